@@ -361,8 +361,15 @@ where
     where
         I: BinningIndex,
     {
-        let (reference_sequence_id, reference_sequence_name) = resolve_region(index, region)?;
-        let chunks = index.query(reference_sequence_id, region.interval())?;
+        let (reference_sequence_id, reference_sequence_name) =
+            resolve_region(header, index, region)?;
+
+        // A contig that is declared in the header but has no records is not listed in the tabix
+        // index: the answer is empty.
+        let chunks = match reference_sequence_id {
+            Some(id) => index.query(id, region.interval())?,
+            None => Vec::new(),
+        };
 
         Ok(Query::new(
             self.get_mut(),
@@ -421,27 +428,42 @@ where
     }
 }
 
-pub(crate) fn resolve_region<I>(index: &I, region: &Region) -> io::Result<(usize, Vec<u8>)>
+pub(crate) fn resolve_region<I>(
+    header: &Header,
+    index: &I,
+    region: &Region,
+) -> io::Result<(Option<usize>, Vec<u8>)>
 where
     I: BinningIndex,
 {
-    let header = index
+    let index_header = index
         .header()
         .ok_or_else(|| io::Error::new(io::ErrorKind::InvalidInput, "missing tabix header"))?;
 
-    let i = header
-        .reference_sequence_names()
-        .get_index_of(region.name())
-        .ok_or_else(|| {
-            io::Error::new(
-                io::ErrorKind::InvalidInput,
-                format!(
-                    "region reference sequence does not exist in reference sequences: {region:?}"
-                ),
-            )
-        })?;
+    let name = region.name();
 
-    Ok((i, region.name().to_vec()))
+    // The index only lists the reference sequences that have records.
+    let id = match index_header.reference_sequence_names().get_index_of(name) {
+        Some(i) => Some(i),
+        None => {
+            let is_declared = std::str::from_utf8(name)
+                .map(|s| header.contigs().contains_key(s))
+                .unwrap_or(false);
+
+            if is_declared {
+                None
+            } else {
+                return Err(io::Error::new(
+                    io::ErrorKind::InvalidInput,
+                    format!(
+                        "region reference sequence does not exist in reference sequences: {region:?}"
+                    ),
+                ));
+            }
+        }
+    };
+
+    Ok((id, name.to_vec()))
 }
 
 #[cfg(test)]
